@@ -765,3 +765,110 @@ def c07_oracle(case, r, stream=None, sequential=None):
             seen.add(sig)
             out.append((sig, text))
     return out
+
+
+# ---------------------------------------------------------------------------------------------- C08
+def c08_oracle(case, r):
+    hits = []
+    oc = r.get("outcome") or ["?"]
+    if oc[0] in ("hang", "sched_abort"):
+        return [("run-does-not-terminate", "the run does not terminate: %s" % (oc[1][:200],))]
+    if oc[0] != "returned" or not r.get("report"):
+        if oc[0] == "raised":
+            hits.append(("run-raised:" + oc[1], "the run raised %s" % oc[1]))
+        return hits
+    pd = case.get("scheduled_project") or case["project"]
+    opts = case.get("options", {})
+    force = bool(opts.get("force_disabled"))
+    exp = expected_tests(pd)
+    status = dict(report_tests(r["report"]))
+    trace = r.get("trace") or []
+    cur, owner = {}, {}
+    take_idx, fin_idx = {}, {}
+    triggers = []      # (idx from which it is visible, kind, suite or None, description)
+    first_failure = None
+    for i, a in enumerate(trace):
+        th, op = a[0], a[1]
+        if op == "take":
+            cur[th] = tuple(a[3])
+            take_idx[tuple(a[3])] = i
+        elif op == "finish":
+            lab = tuple(a[2])
+            fin_idx[lab] = i
+            cur.pop(th, None)
+            if first_failure is None and a[3][0] in ("failure", "skipped") and lab[0] in ("TestTask", "SuiteInitializationTask", "TestSessionSetupTask"):
+                if not (lab[0] == "TestTask" and exp.get(lab[1]) and not force):
+                    first_failure = i
+        elif op == "spawn":
+            owner[a[4]] = cur.get(th, owner.get(th))
+        elif op == "interrupt":
+            triggers.append((i, "interrupt", None, "the keyboard interrupt"))
+        elif op == "raise" and a[3] in ("AbortSuite", "AbortAllTests"):
+            task = cur.get(th, owner.get(th))
+            if task and task[0] == "TestTask":
+                triggers.append((("finish", task), a[3], task[1].rsplit(".", 1)[0], "%s raised by %s" % (a[3], a[2])))
+            elif task and a[3] == "AbortAllTests":
+                triggers.append((("finish", task), a[3], None, "%s raised by %s" % (a[3], a[2])))
+    # teardown failures also count for --stop-on-failure (any location marked failed)
+    if opts.get("stop_on_failure"):
+        for i, a in enumerate(trace):
+            if a[1] == "flag" and a[2] == "failure":
+                # visible at the latest when the task that recorded it has finished
+                first_failure = i if first_failure is None else min(first_failure, max(i, 0))
+                break
+    resolved = []
+    for vis, kind, suite, what in triggers:
+        if isinstance(vis, tuple):
+            if vis[1] not in fin_idx:
+                continue
+            vis = fin_idx[vis[1]]
+        resolved.append((vis, kind, suite, what))
+    if opts.get("stop_on_failure") and first_failure is not None:
+        # the failure is certainly visible once the task that failed has finished
+        fin_after = [i for lab, i in fin_idx.items() if i >= first_failure]
+        if fin_after:
+            resolved.append((min(fin_after), "stop_on_failure", None, "the first failure under --stop-on-failure"))
+    for path, disabled in exp.items():
+        lab = ("TestTask", path)
+        if disabled and not force:
+            continue
+        if lab not in take_idx:
+            continue
+        for vis, kind, suite, what in resolved:
+            if take_idx[lab] <= vis:
+                continue
+            if kind == "AbortSuite" and path.rsplit(".", 1)[0] != suite:
+                continue
+            if status.get(path) != "skipped":
+                hits.append(("started-after-%s" % kind.lower().replace("_", "-"),
+                             "test %s was taken by a worker after %s was visible and is %s instead of skipped" % (path, what, status.get(path))))
+    # sub-suites are not affected by AbortSuite
+    for vis, kind, suite, what in resolved:
+        if kind != "AbortSuite":
+            continue
+        others = [k for (v, k, s, w) in resolved if k != "AbortSuite"]
+        if others:
+            continue
+    # the report is complete, the session end was delivered, the run is unsuccessful
+    for path in exp:
+        if path not in status:
+            hits.append(("test-missing-after-abort", "test %s is not in the report" % path))
+    evs = r.get("events") or []
+    if not evs or evs[-1][0] != "test_session_end":
+        hits.append(("session-end-not-delivered", "the backends did not receive the session end"))
+    if resolved and oc[1] is not False and any(s in ("failed", "skipped") for s in status.values()):
+        hits.append(("aborted-run-reported-successful", "the run returned success although tests failed or were skipped"))
+    files = r.get("files") or {}
+    if case.get("file_backends") and "json" in case["file_backends"] and not any(f.startswith("report.js") for f in files):
+        hits.append(("report-not-saved", "no report file was saved"))
+    # teardowns still run, after their consumers (reuse the C03 oracle)
+    for sig, text in c03_oracle(case, r):
+        if sig in ("fixture-never-torn-down", "fixture-torn-down-before-consumer-finished", "fixture-torn-down-twice",
+                   "teardown-suite-never-executed", "teardown-suite-before-test-finished", "teardown-suite-before-setup"):
+            hits.append((sig, text))
+    seen, out = set(), []
+    for sig, text in hits:
+        if sig not in seen:
+            seen.add(sig)
+            out.append((sig, text))
+    return out
